@@ -788,7 +788,10 @@ impl Cx {
         json!({"k": "call", "callstr": c.to_string(), "ncall": Self::ncall(c, json!([])), "tok": "", "outcome": outcome, "new": [], "nested": [],
                "ret": {"updated": false, "old": "", "tok": ""}, "dump": {}, "after": {}, "committed": false, "ccalls": [], "aborted": false,
                "twin": {"c": {"st": {"units": [], "ds": [], "err": ""}, "sta": {"units": [], "ds": [], "err": ""}, "outcome": "", "xml": [], "x": {}},
-                        "r": {"st": {"units": [], "ds": [], "err": ""}, "sta": {"units": [], "ds": [], "err": ""}, "outcome": "", "xml": [], "x": {}}}})
+                        "r": {"st": {"units": [], "ds": [], "err": ""}, "sta": {"units": [], "ds": [], "err": ""}, "outcome": "", "xml": [], "x": {}},
+                        // a SECOND natively driven document: where the two native executions disagree the library itself is not
+                        // deterministic for this program (hash order), and "the" native state the C side must equal does not exist
+                        "r2": {"st": {"units": [], "ds": [], "err": ""}, "sta": {"units": [], "ds": [], "err": ""}}}})
     }
 
     /// one abstract call performed through the C API
@@ -1567,6 +1570,8 @@ pub fn seq_worker(schedules: &str, out: &str, journal: &str, start: usize) -> st
             let mut cx = Cx::new(&b["cfg"]);
             let mut sx = Sx::new(&b["cfg"]);
             let tdoc = sx.doc.clone();
+            let mut sx2 = Sx::new(&b["cfg"]);
+            let tdoc2 = sx2.doc.clone();
             let mut xs = crate::ffi_extras::Extras::new(&cx, &tdoc, extras, &b["cfg"]);
             let mut i = 0;
             while i < calls.len() {
@@ -1575,12 +1580,14 @@ pub fn seq_worker(schedules: &str, out: &str, journal: &str, start: usize) -> st
                     journal_pre(&Cx::skeleton(&calls[i], "panic: ydoc_write_transaction: "), false);
                     let txn = y::ydoc_write_transaction(cx.doc, 0, null());
                     let mut ttxn = tdoc.transact_mut();
+                    let mut ttxn2 = tdoc2.transact_mut();
                     loop {
                         let c = &calls[i];
                         journal_pre(&Cx::skeleton(c, "panic: "), false);
                         let mut ev = if txn.is_null() { Cx::skeleton(c, "panic: no write transaction") } else { cx.call(txn, c) };
                         // the same call natively on the twin
                         let tev = sx.call(&mut ttxn, c);
+                        let _ = catch_unwind(AssertUnwindSafe(|| sx2.call(&mut ttxn2, c)));
                         let mut pre = ev.clone();
                         pre["outcome"] = json!("panic: accessor dump: ");
                         journal_pre(&pre, false);
@@ -1592,6 +1599,7 @@ pub fn seq_worker(schedules: &str, out: &str, journal: &str, start: usize) -> st
                         ev["twin"]["c"]["outcome"] = ev["outcome"].clone();
                         ev["twin"]["r"]["outcome"] = tev["outcome"].clone();
                         ev["twin"]["r"]["st"] = twin_state(&ttxn);
+                        ev["twin"]["r2"]["st"] = twin_state(&ttxn2);
                         let tdump = catch_unwind(AssertUnwindSafe(|| sx.dump(&ttxn))).unwrap_or(json!({}));
                         ev["twin"]["r"]["xml"] = twin_xml_strings(&ttxn, &tdump);
                         xs.after_call(&cx, txn, &ttxn, &mut ev, &tdump);
@@ -1610,6 +1618,7 @@ pub fn seq_worker(schedules: &str, out: &str, journal: &str, start: usize) -> st
                         y::ytransaction_commit(txn);
                     }
                     drop(ttxn);
+                    drop(ttxn2);
                     // after commit (squash, gc): the state must read the same
                     let rtxn = y::ydoc_read_transaction(cx.doc);
                     if !rtxn.is_null() {
@@ -1620,6 +1629,8 @@ pub fn seq_worker(schedules: &str, out: &str, journal: &str, start: usize) -> st
                     {
                         let t = tdoc.transact();
                         evs[last]["twin"]["r"]["sta"] = twin_state(&t);
+                        let t2 = tdoc2.transact();
+                        evs[last]["twin"]["r2"]["sta"] = twin_state(&t2);
                     }
                     evs[last]["committed"] = json!(true);
                     xs.after_commit(&cx, &tdoc, &mut evs[last], i >= calls.len());
